@@ -1,14 +1,14 @@
 (* C15: the type checker accepts exactly the well-typed programs.
    Only statements here; proofs live in Proof/Check*.v.
      check            Model/Check.v     faithful model of fun::syntax::program::Program::check (as it is
-                                        since fixes d524b1f, <commit15>, <commit12> of /repo)
+                                        since fixes d524b1f, eb42971, 5b8c76f of /repo)
      check_before_fix Model/Check.v     the same without the line that fix d524b1f added (regression statements)
      old_check_decls  Model/Check.v     the same with the declaration types checked by head name only, the code
-                                        before fix <commit15> (regression statements)
+                                        before fix eb42971 (regression statements)
      old_check_main   Model/Check.v     the same without the comparison of main's return type with i64, the code
-                                        before fix <commit12> (regression statements; C12)
+                                        before fix 5b8c76f (regression statements; C12)
      has_type         Sem/FunTyping.v   the declarative typing rules (independent of the model)
-   Soundness was FALSE of the checker until fix <commit15> (types written in data/codata declarations were checked
+   Soundness was FALSE of the checker until fix eb42971 (types written in data/codata declarations were checked
    by head name only; former known finding C15-lazy-declaration-types, witnesses corpus/fun/c15-ill-accepted-*.sc,
    now regression inputs).  Completeness was false until fix d524b1f (instance-creation order; witnesses
    corpus/fun/c15-wt-instance-order*.sc).  Now: for identifier-like names (every parsed program) the checker
@@ -20,7 +20,7 @@ From SCC Require Import Sem.FunNames Sem.FunClosed Proof.CheckBuild Proof.CheckI
 Import ListNotations.
 
 (* Soundness, full statement: `forall p q, check p = COk q -> has_type p`.
-   REGRESSION (fix <commit15>): it was false of the checker that looked only at the head name of a type inside a
+   REGRESSION (fix eb42971): it was false of the checker that looked only at the head name of a type inside a
    data/codata declaration ([old_check_decls]) - for a PARSED program (identifier-like names): `data Foo { C(x: List) }`
    with `data List[A] {..}` was accepted.  The witness is rejected by [check] now (C15_declaration_witnesses_rejected).
    For the current checker soundness is proved for all programs with identifier-like names
@@ -261,7 +261,7 @@ Print Assumptions C15_reject_duplicate_constructor.
         classes [A-Z][a-zA-Z0-9_]* and [a-z][a-zA-Z0-9_]*, "i64" being a keyword); needed because instances are
         keyed by PRINTED names: without it a type may be NAMED like an instance ([C15_names_guard_needed]).
    The former second guard [decl_types_wf ts] (Sem/FunNames.v: the types written inside the data/codata declarations
-   are well-formed) is no longer a hypothesis: since fix <commit15> the checker ESTABLISHES it, for all programs
+   are well-formed) is no longer a hypothesis: since fix eb42971 the checker ESTABLISHES it, for all programs
    (C15_check_accepts_only_wf_declarations).
    GAP to the full statement: none other than the guard on names. *)
 Theorem C15_check_accepts_only_wf_declarations : forall p q,
@@ -314,7 +314,7 @@ Theorem C15_regression_before_fix_sound_poly_partial : forall p q,
   has_type p /\ exists q', check p = COk q'.
 Proof. exact check_before_fix_sound. Qed.
 Print Assumptions C15_regression_before_fix_sound_poly_partial.
-(* the entry point (fix <commit12>; the rule `main : i64` of Sem/FunTyping.v def_ok): in the checked program every
+(* the entry point (fix 5b8c76f; the rule `main : i64` of Sem/FunTyping.v def_ok): in the checked program every
    definition named main returns i64 - for ALL programs; a main of another type is rejected with Mismatch (the former
    witness of C12's finding main-non-integer-result, accepted by the code before the fix) *)
 Theorem C15_check_main_i64 : forall p q d,
@@ -473,7 +473,7 @@ Theorem C15_reject_wrong_type_argument_count_decl_field : forall p td s t,
   bad_arity_in_decl (tdecls (fpdecls p)) (td_params td) t -> has_type_b p = false.
 Proof. exact reject_wrong_type_argument_count_decl_field. Qed.
 Print Assumptions C15_reject_wrong_type_argument_count_decl_field.
-(* ... and since fix <commit15> so does the checker, for all programs (no guard at all) ... *)
+(* ... and since fix eb42971 so does the checker, for all programs (no guard at all) ... *)
 Theorem C15_arity_declaration_field : forall p td s t, In td (tdecls (fpdecls p)) -> In s (td_xtors td) ->
   (In t (map fbty (xs_args s)) \/ xs_ret s = Some t) ->
   bad_arity_in_decl (tdecls (fpdecls p)) (td_params td) t -> exists e, check p = CErr e.
